@@ -850,7 +850,7 @@ pub fn run(run: &mut Run) {
     for (name, ts) in &times {
         let t32 = ts.iter().find(|x| x.0 == 32).map(|x| x.1).unwrap_or(0.0);
         let t64 = ts.iter().find(|x| x.0 == 64).map(|x| x.1).unwrap_or(0.0);
-        if t64 > 0.5 && t64 > 16.0 * t32.max(1e-4) {
+        if t64 > 3.0 && t64 > 16.0 * t32.max(1e-3) {
             st.fail(Failure {
                 sig: "super-linear-time".into(),
                 preds: vec![format!("ladder:{}", name)],
